@@ -255,7 +255,7 @@ def run(run):
                 'oracle: all frames starting >= 2 x max-frame bytes after the garbage delivered exactly once in order, backlog bounded at every call; '
                 'distinct = (framing, direction, garbage bytes, per-read, joined); all non-trivial (every case has garbage and frames beyond the bound)')
     run.assumptions = ['bounded-progress restatement of the liveness clause (2 x max frame = 512 bytes RTU/binary, 1030 ASCII)', 'reference ADU builder']
-    n = run.scale(640, 8000)
+    n = run.scale(640, 100000)
     for framing in FRAMINGS:
         for d in (REQ, RSP):
             for i in range(n):
